@@ -257,8 +257,8 @@ class MBuild:
             if k == 'f' or a in self.inprog:
                 raise NotADirectoryError(p)
             need.append(a)
-        for a in need:
-            if '\0' in a:
+        for a in reversed(need):       # in creation order: the first level that cannot be made decides
+            if '\0' in os.path.basename(a):
                 raise ValueError('embedded null byte')      # what the OS layer of Python answers
             if len(os.fsencode(os.path.basename(a))) > NAME_MAX:
                 raise OSError(errno.ENAMETOOLONG, 'File name too long', a)
